@@ -36,4 +36,20 @@ def toItems (m : OutMsg) : List Item :=
 
 def histItems (h : List OutMsg) : List Item := h.flatMap toItems
 
+def toSKind : RawPanelVerif.Gorwp.Kind → RawPanelVerif.Spec.Gorwp.Kind
+  | .trigger => .trigger
+  | .binary => .binary
+  | .pulsed => .pulsed
+  | .absolute => .absolute
+  | .intensity => .intensity
+
+/-- a run of registrations and events in the specification's vocabulary -/
+def toSDyn : DynItem → SDyn
+  | .bind k id => .bind (toSKind k) id
+  | .event e => .event (toSEvent e)
+
+/-- what arrived within the initialisation window: the items of the messages the client got before the window closed
+or the connection ended (nothing arrives on a connection that is gone) -/
+def windowItems (evs : List InitEv) : List Item := histItems (windowMsgs evs)
+
 end RawPanelVerif.GorwpBridge
